@@ -285,6 +285,15 @@ async fn run_case<const R: usize>(hdr: &Hdr, ops: &[Op], out: &mut Vec<String>) 
             }
         }
     }
+    // "slow or failed subscribers never block …" presupposes a working connection: it must still carry a fresh
+    // receiver; a connection wedged at the chmux level makes the case void for this property
+    if let Some(l) = link.as_mut() {
+        let probe = broadcast::Sender::<u32, D>::new().subscribe::<R>(1);
+        let (s, r) = tokio::join!(tokio::time::timeout(HOUR, l.a_tx.send(probe)), tokio::time::timeout(HOUR, l.b_rx.recv()));
+        if s.is_err() || r.is_err() {
+            out.push("abort connection-wedged".into());
+        }
+    }
     drop(link.take());
 }
 
